@@ -190,7 +190,7 @@ def real_grammar_spec(rng, variant, want_pair=None, seen=None, roots_mode=None):
     return {
         'kind': 'real', 'lang': lang, 'variant': variant, 'seen': seen, 'unary': 'shipped',
         'categories': inv, 'roots': list(JA_ROOTS if lang == 'ja' else EN_ROOTS),
-        'roots_mode': roots_mode or rng.choice(['cli', 'derivable', 'derivable']),
+        'roots_mode': roots_mode or rng.choice(['cli', 'derivable', 'derivable', 'derivable', 'derivable']),
     }
 
 
@@ -234,13 +234,56 @@ def value_chart_roots(tags_seq, categories, memo, max_items=400):
     return chart[(0, n)]
 
 
+def derivable_pool(rng, categories, memo, max_len, attempts=40):
+    """tag sequences that have a derivation by construction: spans are grown by
+    combining two shorter derivable spans whose categories the grammar combines.
+    returns {length: [(tag index tuple, str(category)), ...]}"""
+    pool = {1: []}
+    by_len_cat = {}
+    unary_topped = set()
+
+    def add(length, seq, cat, depth=0):
+        key = (seq, cat)
+        if key in by_len_cat:
+            return
+        by_len_cat[key] = True
+        pool.setdefault(length, []).append((seq, cat))
+        if depth < 2 and len(pool[length]) < 60:
+            for r in memo.unary(cat):
+                add(length, seq, r.cat, depth + 1)
+    for t, c in enumerate(categories):
+        add(1, (t,), c)
+    for length in range(2, max_len + 1):
+        pool.setdefault(length, [])
+        for _ in range(attempts):
+            k = rng.randint(1, length - 1)
+            if not pool.get(k) or not pool.get(length - k):
+                continue
+            s1, c1 = rng.choice(pool[k])
+            s2, c2 = rng.choice(pool[length - k])
+            res = memo.binary(c1, c2)
+            if res:
+                r = rng.choice(res)
+                # no unary on top of the full span of a multi-word sentence: keep the binary result itself
+                key = (s1 + s2, r.cat)
+                if key not in by_len_cat:
+                    by_len_cat[key] = True
+                    pool[length].append(key)
+                    if len(pool[length]) < 60:
+                        for u in memo.unary(r.cat):
+                            add(length, s1 + s2, u.cat, 1)
+                            unary_topped.add((s1 + s2, u.cat))
+    pool['unary_topped'] = unary_topped
+    return pool
+
+
 def make_scores(nprng, rng, n, T, style, favoured=None):
     """log-probability matrices (float32): tag (n,T), dep (n,n+1)"""
     spread = rng.choice([0.5, 1.5, 3.0])
     logits = nprng.normal(0.0, spread, size=(n, T))
     if favoured is not None:
         for i, t in enumerate(favoured):
-            logits[i, t] += rng.choice([0.0, 1.0, 3.0])
+            logits[i, t] += rng.choice([1.0, 3.0, 5.0])
     dlogits = nprng.normal(0.0, rng.choice([0.5, 1.5, 3.0]), size=(n, n + 1))
     if style == 'quantised':
         logits = numpy.round(logits * 2) / 2
@@ -287,18 +330,21 @@ def make_world(seed, index, family=None, n_sentences=None, max_len=6, rich_token
     n_sentences = n_sentences or rng.randint(3, 8)
     sentences = []
     derivable = []
+    pool = derivable_pool(rng, cats, memo, max_len)
+    root_set = set(g['roots'])
     for sid in range(n_sentences):
         n = rng.randint(1, max_len)
         favoured = None
-        # try to find a tag sequence with a derivation for a good share of sentences
-        if rng.random() < 0.8:
-            for _ in range(12):
-                seq = [rng.randrange(T) for _ in range(n)]
-                full = value_chart_roots(seq, cats, memo)
-                if full:
-                    favoured = seq
-                    derivable.extend(sorted(str(c) for c in full))
-                    break
+        # a tag sequence with a derivation (by construction) for a good share of sentences
+        if rng.random() < 0.85:
+            cands = [c for c in (pool.get(n) or []) if n == 1 or c not in pool['unary_topped']]
+            rooted = [c for c in cands if c[1] in root_set]
+            if rooted and rng.random() < 0.6:
+                cands = rooted
+            if cands:
+                seq, cat = rng.choice(cands)
+                favoured = list(seq)
+                derivable.append(str(cat))
         style = rng.choice(score_styles)
         tag, dep = make_scores(nprng, rng, n, T, style, favoured)
         words = [f'w{sid}x{i}' for i in range(n)]
@@ -309,7 +355,7 @@ def make_world(seed, index, family=None, n_sentences=None, max_len=6, rich_token
     if spec['kind'] == 'real' and spec.get('roots_mode') == 'derivable' and derivable:
         extra = list(dict.fromkeys(derivable))
         rng.shuffle(extra)
-        spec['roots'] = list(dict.fromkeys(spec['roots'] + extra[:rng.randint(1, 4)]))
+        spec['roots'] = list(dict.fromkeys(spec['roots'] + extra[:rng.randint(2, 6)]))
     elif spec['kind'] == 'synth' and derivable and rng.random() < 0.7:
         extra = list(dict.fromkeys(derivable))
         rng.shuffle(extra)
